@@ -51,3 +51,13 @@ Print Assumptions C14_printer_paren_decision.
 Theorem C14_text_piece_then_binding : forall s, has_double_lbrace (text_piece false s ++ [123%N]) = false.
 Proof. exact text_piece_then_binding. Qed.
 Print Assumptions C14_text_piece_then_binding.
+
+(* ---- static text read back by the parser's REAL entity scanner (Model/TextDecode.v, tied to the
+   implementation by the entscan correspondence), for any named-reference table that knows the
+   three references the printer uses ---- *)
+From GE Require Import Model.TextDecode Proofs.TextDecodeProofs.
+Theorem C14_static_text_roundtrip_real_scanner : forall named,
+  named e_lt = Some [60%N] -> named e_quot = Some [34%N] -> named e_amp = Some [38%N] ->
+  forall s, decode_text named (escape_html_body s) = s.
+Proof. exact decode_escape_html_body. Qed.
+Print Assumptions C14_static_text_roundtrip_real_scanner.
